@@ -55,4 +55,26 @@ def obligations(ctx):
                         bound="every buffer of exactly %d bytes" % n, termination=True,
                         cbmc=["--unwind", str(max(n + 4, 7)), "--unwinding-assertions"], timeout=3000, mem_gb=12,
                         case={"n": n}))
+    # structured family: fixed "/a" + tag string (all tag strings of length 1..2 (quick) / 1..3 (thorough) over class
+    # representatives), followed by a fully symbolic payload region of 8 / 12 bytes
+    import itertools
+    reps = "sbihT"
+    maxlen = 2 if ctx.tier == "quick" else 3
+    pay = 8 if ctx.tier == "quick" else 12
+    for ln in range(1, maxlen + 1):
+        for tags in itertools.product(reps, repeat=ln):
+            tags = "".join(tags)
+            if not any(t in "sb" for t in tags):
+                continue
+            pre = [0x2f, 0x61, 0, 0, 0x2c] + [ord(t) for t in tags]
+            pre += [0] * (4 - len(pre) % 4)
+            n = len(pre) + pay + 4 * sum(1 for t in tags if t == "i") + 8 * sum(1 for t in tags if t == "h")
+            obls.append(Obl("C07.accept_structured.%s.n%02d" % (tags, n), "C07", "harness/C07/accept_decodable.c",
+                            entry="h_accept_decodable",
+                            defines={"RTOSC_C": raw, "N": str(n), "PREFIX_BYTES": ",".join(str(x) for x in pre)}, mode="bounded",
+                            bound="address '/a' and tag string '%s' fixed, every content of the remaining %d bytes" % (tags, n - len(pre)),
+                            termination=True, cbmc=["--unwind", str(n + 4), "--unwinding-assertions"], timeout=1500, mem_gb=12,
+                            case={"tags": tags, "n": n}))
+    obls.append(Obl("C07.canary.accept_decodable.n08", "C07", "harness/C07/accept_decodable.c", entry="h_accept_decodable",
+                    defines={"RTOSC_C": raw, "N": "8"}, mode="bounded", bound="n=8", cbmc=["--unwind", "12"], canary=True, timeout=600))
     return obls
